@@ -1,4 +1,231 @@
-//! ratchet: not built yet.
-pub fn run(args: &vh_common::Args) {
-    vh_common::unknown(args)
+//! Ratchet (C34): `p2panda_encryption::message_scheme::ratchet::DecryptionRatchet` against
+//! spec/Ratchet. The sender side is the real `RatchetSecret::ratchet_forward`; "the key of
+//! generation n" is the key material (key, nonce) that chain returned for generation n, compared
+//! byte-wise with what the decryption ratchet hands out.
+use std::collections::BTreeSet;
+
+use p2panda_encryption::crypto::Secret;
+use p2panda_encryption::message_scheme::ratchet::{
+    DecryptionRatchet, DecryptionRatchetState, MESSAGE_KEY_SIZE, RatchetKeyMaterial, RatchetSecret,
+};
+use vh_common::{Args, Outcome, Rng, TraceWriter, Value, catch, json, read_ndjson, unknown};
+
+pub fn run(args: &Args) {
+    match args.mode.as_str() {
+        "replay" => replay(args),
+        "record" => record(args),
+        _ => unknown(args),
+    }
+}
+
+/// `Secret::from_bytes` is crate-private: go through its serde form (CBOR byte string).
+fn secret(bytes: [u8; MESSAGE_KEY_SIZE]) -> Secret<MESSAGE_KEY_SIZE> {
+    let mut cbor = vec![0x58, MESSAGE_KEY_SIZE as u8];
+    cbor.extend_from_slice(&bytes);
+    ciborium::de::from_reader(&cbor[..]).expect("decode secret")
+}
+
+/// Key material the real sender chain produces for generations 0..n.
+fn sender_keys(seed: [u8; MESSAGE_KEY_SIZE], n: usize) -> Vec<RatchetKeyMaterial> {
+    let mut y = RatchetSecret::init(secret(seed));
+    let mut out = Vec::with_capacity(n);
+    for k in 0..n {
+        let (y_i, generation, material) = RatchetSecret::ratchet_forward(y).expect("sender ratchet_forward");
+        assert_eq!(generation as usize, k, "sender generation numbering");
+        y = y_i;
+        out.push(material);
+    }
+    out
+}
+
+/// One request on the real ratchet. The function consumes the state and returns none on error:
+/// like the group code, the caller keeps the state it had.
+fn request(
+    y: &mut DecryptionRatchetState,
+    g: u32,
+    fwd: u32,
+    ooo: u32,
+) -> Result<Option<RatchetKeyMaterial>, String> {
+    let before = y.clone();
+    match catch(move || DecryptionRatchet::secret_for_decryption(before, g, fwd, ooo)) {
+        Ok(Ok((next, material))) => {
+            *y = next;
+            Ok(Some(material))
+        }
+        Ok(Err(_)) => Ok(None),
+        Err(p) => Err(p),
+    }
+}
+
+/// Index of the sender generation whose material equals `m` byte-wise (-1: none).
+fn index_of(keys: &[RatchetKeyMaterial], m: &RatchetKeyMaterial) -> i64 {
+    keys.iter().position(|k| k.0 == m.0 && k.1 == m.1).map(|p| p as i64).unwrap_or(-1)
+}
+
+fn replay(args: &Args) {
+    let behaviours = read_ndjson(args.input.as_ref().expect("--in"));
+    let mut out = Outcome::new(
+        args,
+        "every TLC-exported request sequence executed on the real DecryptionRatchet against the real sender chain; per request: \
+         key handed out or not as the spec says, key material byte-equal to the sender's of that generation, no generation twice; \
+         non-trivial = a sequence with an out-of-order hit, a reuse or an out-of-window request; distinct by behaviour",
+    );
+    let seed: [u8; 32] = Rng::new(args.seed).bytes(32).try_into().unwrap();
+    let keys = sender_keys(seed, 64);
+    for b in &behaviours {
+        out.eval();
+        let mut y = DecryptionRatchet::init(secret(seed));
+        let mut handed: BTreeSet<u32> = BTreeSet::new();
+        let mut nontrivial = false;
+        let mut failed = false;
+        for (k, step) in b["steps"].as_array().expect("steps").iter().enumerate() {
+            let g = step["g"].as_u64().unwrap() as u32;
+            let fwd = step["fwd"].as_u64().unwrap() as u32;
+            let ooo = step["ooo"].as_u64().unwrap() as u32;
+            let kind = step["kind"].as_str().unwrap();
+            if step["branch"].as_str().unwrap() != "Forward" {
+                nontrivial = true;
+            }
+            let head_before_hit = kind == "Key";
+            match request(&mut y, g, fwd, ooo) {
+                Err(p) => {
+                    out.violation("C34", "ratchet-panics", format!("request {k} (g={g}, fwd={fwd}, ooo={ooo}) panicked: {p}"), b.clone());
+                    failed = true;
+                }
+                Ok(None) => {
+                    out.count(&format!("spec_{kind}"));
+                    if head_before_hit {
+                        // inside the windows and not handed out yet, says the spec
+                        out.violation(
+                            "C34",
+                            "key-refused-inside-window",
+                            format!("request {k}: generation {g} (fwd={fwd}, ooo={ooo}) was refused, the spec derives its key"),
+                            b.clone(),
+                        );
+                        failed = true;
+                    }
+                }
+                Ok(Some(m)) => {
+                    let idx = index_of(&keys, &m);
+                    if idx != g as i64 {
+                        out.violation(
+                            "C34",
+                            "wrong-key-for-generation",
+                            format!("request {k}: generation {g} got the sender's key material of generation {idx} (-1: of none)"),
+                            b.clone(),
+                        );
+                        failed = true;
+                    } else if !handed.insert(g) {
+                        out.violation(
+                            "C34",
+                            "key-handed-out-twice",
+                            format!("request {k}: the key of generation {g} was handed out a second time"),
+                            b.clone(),
+                        );
+                        failed = true;
+                    } else if kind != "Key" {
+                        out.violation(
+                            "C34",
+                            "key-outside-window",
+                            format!("request {k}: generation {g} (fwd={fwd}, ooo={ooo}) got a key, the spec rejects it ({kind})"),
+                            b.clone(),
+                        );
+                        failed = true;
+                    } else {
+                        out.count("spec_Key");
+                    }
+                }
+            }
+            if failed {
+                break;
+            }
+        }
+        if !failed {
+            if nontrivial {
+                out.mark_distinct(b["steps"].to_string());
+            }
+            out.sample(b.clone());
+        }
+    }
+    out.write(args);
+}
+
+/// Random delivery orders of a sender's messages: local shuffles, losses, duplicates, far jumps;
+/// large generations and windows.
+fn record(args: &Args) {
+    let mut rng = Rng::new(args.seed);
+    let n = if args.n > 0 { args.n } else { 100 };
+    let mut trace = TraceWriter::create(args.out.as_ref().expect("--out"));
+    let mut out = Outcome::new(
+        args,
+        "seeded random delivery orders (shuffled within a random radius, with losses, duplicates and far jumps) of up to 300 \
+         generations through the real DecryptionRatchet with windows 0..40, fixed per run or varying per call; the returned material is \
+         identified byte-wise in the real sender chain; one event per request; distinct by (run, request)",
+    );
+    for run in 0..n {
+        let seed: [u8; 32] = rng.bytes(32).try_into().unwrap();
+        let gens = rng.range(5, 300) as usize;
+        let keys = sender_keys(seed, gens + 130);
+        let mut y = DecryptionRatchet::init(secret(seed));
+        let vary = rng.chance(1, 4);
+        let windows: [u32; 8] = [0, 1, 2, 3, 5, 8, 20, 40];
+        let fwd0 = *rng.pick(&windows);
+        let ooo0 = *rng.pick(&windows);
+        trace.event(json!({"ev": "Reset", "run": run, "vary": vary}));
+        // delivery order
+        let mut order: Vec<u32> = (0..gens as u32).collect();
+        let radius = rng.range(0, 12) as usize;
+        if radius > 0 {
+            for i in 0..order.len() {
+                let j = (i + rng.below(radius as u64 + 1) as usize).min(order.len() - 1);
+                order.swap(i, j);
+            }
+        }
+        let mut seq: Vec<u32> = Vec::new();
+        for g in order {
+            if rng.chance(1, 12) {
+                continue; // lost
+            }
+            seq.push(g);
+            if rng.chance(1, 10) {
+                seq.push(g); // duplicate right away
+            }
+            if rng.chance(1, 15) && !seq.is_empty() {
+                let old = *rng.pick(&seq); // replay of something old
+                seq.push(old);
+            }
+            if rng.chance(1, 40) {
+                seq.push(g + rng.range(1, 60) as u32); // far jump
+            }
+        }
+        let mut handed: BTreeSet<u32> = BTreeSet::new();
+        for (k, g) in seq.into_iter().enumerate() {
+            let (fwd, ooo) = if vary { (*rng.pick(&windows), *rng.pick(&windows)) } else { (fwd0, ooo0) };
+            out.eval();
+            out.mark_distinct(format!("{run}:{k}"));
+            match request(&mut y, g, fwd, ooo) {
+                Err(p) => {
+                    out.violation("C34", "ratchet-panics", format!("request (g={g}, fwd={fwd}, ooo={ooo}) panicked: {p}"), json!({"run": run, "request": k}));
+                    break;
+                }
+                Ok(None) => {
+                    trace.event(json!({"ev": "Request", "g": g, "fwd": fwd, "ooo": ooo, "ok": false, "key": -1}));
+                    out.count("refused");
+                }
+                Ok(Some(m)) => {
+                    let idx = index_of(&keys, &m);
+                    if !handed.insert(g) {
+                        out.count("handed_twice_seen_by_recorder");
+                    }
+                    out.count("key");
+                    let ev: Value = json!({"ev": "Request", "g": g, "fwd": fwd, "ooo": ooo, "ok": true, "key": idx});
+                    out.sample(ev.clone());
+                    trace.event(ev);
+                }
+            }
+        }
+    }
+    let (events, runs) = trace.finish();
+    out.set_trace(events, runs);
+    out.write(args);
 }
